@@ -60,7 +60,7 @@ let tt p =
 let () =
   List.iter (fun line ->
     match split_ws line with
-    | id :: comp :: _cap :: rest ->
+    | id :: comp :: _cap :: rest -> with_budget id (fun () ->
       let (t, r1) = parse_vt rest in
       let ops = match r1 with ";" :: r -> parse_ops [] r | [] -> [] | _ -> failwith "bad case" in
       let tt_mode = comp <> "1" && List.exists (function OCnf _ -> true | _ -> false) ops in
@@ -75,5 +75,5 @@ let () =
            string_of_int (first 0)) arr in
          print_endline (String.concat " " (id :: Array.to_list strs @ ["#"] @ Array.to_list ids))
        | OutOfFuel -> print_endline (id ^ " OUT_OF_FUEL")
-       | Panic -> print_endline (id ^ " PANIC"))
+       | Panic -> print_endline (id ^ " PANIC")))
     | _ -> ()) (read_lines ())
